@@ -231,3 +231,62 @@ def run(ctx):
                 ck.ob("C10-R7", rd, "every-Err-the-reader-returns-is-the-read()-call's-own-error", ok, site=p.events[-1].span if p.events else None,
                       detail=None if ok else "the reader returns %s, which does not derive from the result of read()" % show(ret)[:100])
         ck.floor("C10-R7", "reader-error-returns:" + rd.rsplit("::", 2)[-2], nerr, 1)
+
+    # ---- R8 the poll adapter: every readiness event of the keyboard (the switch) becomes one Device::Keyboard
+    # (Device::Tablet) entry, decided by the event's token alone -- a hang-up or error wake-up carries no READABLE
+    # bit but must still lead to a read, which is where ENODEV is seen
+    pl = "<remapping_loop::RealDriver as remapping_loop::Driver>::poll"
+    rp = "<remapping_loop::RealDriver as remapping_loop::Driver>::register_poll"
+    b = ctx.body(pl)
+    me = T("param", 1, b.dbg.get(1, ""))
+    from .. import ktloops
+    lps = sorted(b.loops())
+    ok_shape = len(lps) == 1
+    tokens = {}
+    if ok_shape:
+        il = ktloops.index_loop(b, lps[0])
+        src = il.list_term
+        ok_iter = (il.kind == "for-elements" and il.complete and not il.break_paths and isinstance(src, tuple) and src[0] == "call" and mir.method_name(src[1]) == "iter"
+                   and "Events" in src[1])
+        ck.ob("C10-R8", pl, "every-readiness-event-of-the-wake-up-is-looked-at", ok_iter, detail=show(src)[:80] if src else None)
+        ev = il.elem
+        tok = T("call", "mio::event::Event::token", (ev,), None)
+        for p in il.cont_paths:
+            gs = [(e.a, e.b) for e in p.events if e.kind == "guard" and not (isinstance(e.a, tuple) and e.a[0] == "variantof" and isinstance(e.a[1], tuple) and e.a[1][0] == "next")]
+            pushes = [e for e in p.events if e.kind == "call" and mir.method_name(e.a) == "push"]
+            only_token = all(isinstance(a, tuple) and any(isinstance(s_, tuple) and s_[:2] == ("call", "mio::event::Event::token") for s_ in mir.subterms(a)) for a, v in gs)
+            ck.ob("C10-R8", pl, "an-event-is-classified-by-its-token-alone", only_token and len(gs) == 1,
+                  detail=None if (only_token and len(gs) == 1) else "conditions: %s" % [(show(a)[:50], v) for a, v in gs][:3])
+            if gs and isinstance(gs[0][1], int) and not isinstance(gs[0][1], bool):
+                dev = pushes[0].b[1][2] if len(pushes) == 1 and isinstance(pushes[0].b[1], tuple) and pushes[0].b[1][0] == "agg" else None
+                tokens[gs[0][1]] = dev
+                ck.ob("C10-R8", pl, "a-known-token-yields-exactly-one-device-entry", len(pushes) == 1 and dev in ("Keyboard", "Tablet"))
+            else:
+                ck.ob("C10-R8", pl, "an-unknown-token-yields-nothing", not pushes)
+    ck.ob("C10-R8", pl, "one-loop-over-the-events", ok_shape)
+    # registration uses the same tokens for the same descriptors
+    rb = ctx.body(rp)
+    reg = {}
+    for p in mir.walk_function(rb):
+        for e in p.events:
+            if e.kind == "call" and mir.method_name(e.a) == "register" and len(e.b) >= 3:
+                fd = show(e.b[1])
+                tk = e.b[2]
+                if isinstance(tk, tuple) and tk and tk[0] == "const" and isinstance(tk[1], tuple):
+                    tk = tk[1]
+                tokv = mir.const_int(e.b[2])
+                if tokv is None and isinstance(tk, tuple) and tk and tk[0] == "val" and len(tk) > 2 and isinstance(tk[2], int):
+                    tokv = tk[2]
+                reg[tokv] = "Keyboard" if ".rw.r.fd" in fd else ("Tablet" if ".rw.t" in fd else fd[:40])
+    ck.ob("C10-R8", rp, "tokens-registered-for-the-keyboard-and-the-switch-are-the-ones-poll-maps-back", reg == tokens and set(reg.values()) == {"Keyboard", "Tablet"},
+          detail="registered %s, mapped back %s" % (reg, tokens))
+    # the wake-up is reported as DeviceEvent exactly when some device entry was produced
+    kinds = {}
+    for p in mir.walk_function(b):
+        if p.outcome[0] != "return" or not any(e.kind == "loop" for e in p.events):
+            continue
+        emp = [e.b for e in p.events if e.kind == "guard" and isinstance(e.a, tuple) and e.a[0] == "empty"]
+        r = p.outcome[1]
+        v = r[3][0][2] if isinstance(r, tuple) and r[0] == "agg" and r[2] == "Ok" and isinstance(r[3][0], tuple) and r[3][0][0] == "agg" else None
+        kinds[tuple(emp)] = v
+    ck.ob("C10-R8", pl, "DeviceEvent-iff-some-device-entry", kinds == {(False,): "DeviceEvent", (True,): "TimedOut"}, detail=str(kinds))
